@@ -114,11 +114,21 @@ def gen_program(prng):
             pubs['branch'] = {}
             if pubs['global']:
                 edges['on-success' if out[i] == 'ok' else 'on-error'] = []
+        # (a derived publication reads a variable the task does not publish
+        # itself: the order in which the sections of one task are evaluated
+        # is not part of any property)
+        own = set(pubs['task']) | set(pubs['branch']) | set(pubs['global'])
+        free = [v for v in BRANCH + GLOBAL if v not in own]
         tasks[i] = {'edges': edges, 'pubs': pubs,
-                    'derived': (prng.choice(BRANCH + GLOBAL)
-                                if prng.random() < 0.3 else None),
+                    'derived': (prng.choice(free)
+                                if free and prng.random() < 0.3 else None),
                     'mut': prng.random() < 0.15,
-                    'lang': prng.choice(['yaql', 'jinja'])}
+                    'lang': prng.choice(['yaql', 'jinja']),
+                    # completion through the engine's postponed path
+                    'wait_after': prng.random() < 0.2,
+                    # branch and global publications on two different
+                    # clauses when two clauses fire
+                    'split': prng.random() < 0.5}
     P = {'n': n, 'parents': {str(k): v for k, v in parents.items()},
          'out': {str(k): v for k, v in out.items()},
          'tasks': {str(k): v for k, v in tasks.items()},
@@ -186,24 +196,28 @@ def to_yaml(P):
             d['publish' if ok else 'publish-on-error'] = tpub
         firing = [cl for cl in t['edges']]
         # clause-level publishes go to one clause that fires
-        carrier = None
+        carrier = carrier2 = None
         if pubs['branch'] or pubs['global']:
-            carrier = sorted(firing)[0]
+            carrier = carrier2 = sorted(firing)[0]
+            if t.get('split') and len(firing) > 1:
+                carrier2 = sorted(firing)[1]
         for cl, targets in t['edges'].items():
             nxt = ['t%d' % j for j in targets]
-            if cl == carrier:
-                pub = {}
-                if pubs['branch']:
-                    pub['branch'] = {k: render(prng, v)
-                                     for k, v in pubs['branch'].items()}
-                if pubs['global']:
-                    pub['global'] = {k: render(prng, v)
-                                     for k, v in pubs['global'].items()}
+            pub = {}
+            if cl == carrier and pubs['branch']:
+                pub['branch'] = {k: render(prng, v)
+                                 for k, v in pubs['branch'].items()}
+            if cl == carrier2 and pubs['global']:
+                pub['global'] = {k: render(prng, v)
+                                 for k, v in pubs['global'].items()}
+            if pub:
                 d[cl] = {'publish': pub}
                 if nxt:
                     d[cl]['next'] = nxt
             else:
                 d[cl] = nxt
+        if t.get('wait_after'):
+            d['wait-after'] = 1
         dead = (P.get('dead') or {}).get(str(i))
         if dead:
             d['on-error' if ok else 'on-success'] = ['t%d' % j for j in dead]
@@ -295,9 +309,11 @@ class StoredContext(Monitor):
                               a['name'], b['state'], a['state'],
                               b.get('in_context'), a.get('in_context')),
                           mech='in-context-rewritten')
+            # (DELAYED: completed and postponed by wait-after in the same
+            # transaction)
             if 'published' in ch and not (
                     b['state'] not in ('SUCCESS', 'ERROR') and
-                    a['state'] in ('SUCCESS', 'ERROR')):
+                    a['state'] in ('SUCCESS', 'ERROR', 'DELAYED')):
                 self.fire('published of task %s changed outside its '
                           'completion (%s -> %s)' % (a['name'], b['state'],
                                                      a['state']),
@@ -350,6 +366,15 @@ def run_case(case):
                            'seed': prng.randint(0, 10 ** 6)}),
              'scheduler': case['scheduler'],
              'uuid_seed': case['uuid_seed'] + 7919 * k}
+        if k == 1:
+            # a later execution in the same engine process: the same
+            # definition ran before with the opposite outcome of every
+            # task (other clauses fired, other sections published)
+            c['warm'] = {'outcomes': [
+                {'t': 't%d' % i, 'outcome': ['err', 'warm-bad%d' % i]}
+                for i in range(n) if P['out'][str(i)] != 'err']}
+            res['monitor_evaluations']['warm-process'] = \
+                res['monitor_evaluations'].get('warm-process', 0) + 1
         run = ec.execute(c, extra_monitors=[StoredContext()])
         res['executions'] += 1
         ec.merge_counts(res['events'], run.events)
